@@ -18,7 +18,7 @@ Regimes ==
   {[cls |-> "DistBernoulli", reg |-> r] : r \in {"p0", "phalf", "p1", "p_neg", "p_gt1", "p_int"}} \cup
   {[cls |-> "DistBeta", reg |-> r] : r \in {"lt1", "eq1", "gt1", "mixed", "a1_zero", "a2_neg", "str"}} \cup
   {[cls |-> "DistBinomial", reg |-> r] : r \in {"p0", "phalf", "p1", "n_zero", "p_gt1", "n_float"}} \cup
-  {[cls |-> "DistDiscreteUniform", reg |-> r] : r \in {"range", "negrange", "lo_eq_hi", "lo_gt_hi", "float"}} \cup
+  {[cls |-> "DistDiscreteUniform", reg |-> r] : r \in {"range", "negrange", "beyond_2p53", "lo_eq_hi", "lo_gt_hi", "float"}} \cup
   {[cls |-> "DistConstant", reg |-> r] : r \in {"float", "int", "str"}} \cup
   {[cls |-> "DistErlang", reg |-> r] : r \in {"k1", "k3", "k12", "scale_zero", "k_zero", "k_float"}} \cup
   {[cls |-> "DistExponential", reg |-> r] : r \in {"default", "tiny", "mean_zero", "mean_neg"}} \cup
@@ -30,7 +30,7 @@ Regimes ==
   {[cls |-> "DistLogNormal", reg |-> r] : r \in {"std", "shifted", "sigma_zero"}} \cup
   {[cls |-> "DistPearson5", reg |-> r] : r \in {"lt1", "gt1", "alpha_zero", "beta_neg"}} \cup
   {[cls |-> "DistPearson6", reg |-> r] : r \in {"lt1", "gt1", "mixed", "alpha1_zero", "beta_zero"}} \cup
-  {[cls |-> "DistPoisson", reg |-> r] : r \in {"small", "large", "rate_zero"}} \cup
+  {[cls |-> "DistPoisson", reg |-> r] : r \in {"small", "large", "huge", "rate_zero"}} \cup
   {[cls |-> "DistTriangular", reg |-> r] : r \in {"inside", "mode_lo", "mode_hi", "mode_below", "mode_above", "lo_eq_hi"}} \cup
   {[cls |-> "DistUniform", reg |-> r] : r \in {"unit", "wide", "hi_le_lo"}} \cup
   {[cls |-> "DistWeibull", reg |-> r] : r \in {"lt1", "gt1", "alpha_zero", "beta_neg"}}
